@@ -36,7 +36,7 @@ import zlib
 
 from . import common, sessionlib, modlib
 
-KINDS = ('pass', 'failout', 'failexc', 'failcompile', 'faildirective', 'skipall', 'skippart', 'expexc', 'comment', 'disabled', 'disabledfail', 'needell')
+KINDS = ('pass', 'failout', 'failexc', 'failcompile', 'faildirective', 'skipall', 'skippart', 'expexc', 'comment', 'disabled', 'disabledfail', 'needell', 'latenote', 'latenotefail')
 BOUNDS = {'quick': dict(n=3, limit=12000, cli=40), 'thorough': dict(n=4, limit=60000, cli=400)}
 OPTS = {'none': '', 'skip': '+SKIP', 'noell': '-ELLIPSIS', 'req': '+REQUIRES(module:xdv_nope_q)'}
 _J = {}
